@@ -6,7 +6,7 @@ CONSTANTS
   Outcomes = {"success", "revert", "panic", "failflag", "stuck"}
   Replies = {"sat_valid", "sat_abstract", "unsat", "unsat_shared", "unknown", "garbage", "spawnfail"}
   Replies2 = {"sat_valid", "sat_abstract", "unsat", "unknown", "garbage", "spawnfail"}
-  StuckReplies = {"sat_valid", "unsat", "unknown", "garbage", "spawnfail"}
+  StuckReplies = {"sat_valid", "unsat", "unknown", "garbage"}
   EarlySet = {TRUE, FALSE}
   CacheSet = {TRUE, FALSE}
   RefinableSet = {TRUE, FALSE}
@@ -16,4 +16,7 @@ CONSTANTS
   RecordHist = FALSE
   Canon = TRUE
   Coarse = FALSE
+  MutPrecedence = FALSE
+  MutNoCatch = FALSE
+  KilledMayRaise = FALSE
 INVARIANTS TypeOK CanonIsSeq OneOutputPerQuery
